@@ -13,6 +13,6 @@ sch=json.load(open('/root/.vp/EVIDENCE.schema.json'))
 for c in m['checks']:
     e=json.load(open('/verif/'+c['evidence_file'])); jsonschema.validate(e, sch)
     cov=e['coverage']
-    if e['level']=='proof' and cov['obligations']-cov['discharged'] != len(cov.get('known_findings_hit', [])): print('EVIDENCE MISMATCH', c['property_id'], cov['obligations'], cov['discharged'])
+    if e['level']=='proof' and cov['obligations'] != cov['discharged']: print('EVIDENCE MISMATCH', c['property_id'], cov['obligations'], cov['discharged'])
 print('manifest+evidence valid')
 PY
